@@ -21,7 +21,7 @@ from tools.gen import bytecode as gen_bytecode
 from tools.gen.csrc import ExtractError
 from harness.C02 import gen, oracle
 
-from harness.C02.lean_parts import THEOREMS, lean_stage, tv_stage
+from harness.C02.lean_parts import THEOREMS, lean_stage, tv_stage, sem_stage
 
 KNOWN_WHAT = {
     "far-upvalue-index-truncated": "closure captures a local living in a register > 255: LOAD_UPVALUE/SET_UPVALUE index is truncated to 8 bits",
@@ -111,6 +111,11 @@ def run(ctx):
         # the Lean VM and the real VM ran the SAME bytecode: a difference is a VM-model / VM discrepancy, reported with the program
         ctx.violation("tv:" + hashlib.sha256(dd["source"].encode()).hexdigest()[:12], dict(dd, kind="lean-vm-vs-real-vm"),
                       what="Lean VM and real VM disagree on the bytecode the real compiler produced for %s" % dd["case"])
+    # ---------------------------------------------------------------- second reference: Lean Lang/Sem on the real macro expansion
+    sem_cov, sem_dis = sem_stage(ctx, broken, janet, todo, got)
+    lean_cov.update(sem_cov)
+    ctx.say("Lang/Sem: %s" % sem_cov)
+    sem_bad = {dd["case"] for dd in sem_dis}
     byprog = {}
     for it in todo:
         byprog.setdefault(it["prog"], []).append(it)
@@ -134,6 +139,9 @@ def run(ctx):
             if (tuple(g["trace"]), g["final"]) != exp:
                 n_dis += 1
                 failures.append((prog, it["ctx"], "ref-disagree", it, g))
+            elif cid in sem_bad:
+                n_dis += 1
+                failures.append((prog, it["ctx"], "leansem-disagree", it, g))
             obs[it["ctx"]] = canon(it["ctx"], g)
         # context independence on the implementation alone
         if obs:
